@@ -41,7 +41,10 @@ def strip_types_clash(r):
 def streams(tier, seed):
     rng = lib.Rng(f"C08-{seed}")
     n = 160 if tier == "quick" else 3000
-    cases = c01.gen_cases(rng, n, 3 if tier == "quick" else 4, p_rep=0.25, max_children=4)
+    # two thirds general hierarchies, one third wiring-heavy ones with the children listed in any order (fan-in from several
+    # siblings, feeders listed after what they feed: every leaf's value still reaches the sums above it)
+    md = 3 if tier == "quick" else 4
+    cases = c01.gen_cases(rng, n - n // 3, md, p_rep=0.25, max_children=4) + c01.gen_cases(rng, n // 3, md, max_children=4, p_shuffle=1.0, p_rep=0.1, p_through=0.25)
     for c in cases:
         strip_types_clash(c["routine"])
     st = c01.mk_stream(lib.load_corpus(PROP, "hier-resources") + cases, "check_accumulate")
